@@ -579,7 +579,7 @@ GROUPS = [
     Group('setEpSquare', 'h_setEpSquare', enforce='Position_setEpSquare', min_props=5),
     Group('staticInitialize', 'h_staticInitialize', enforce='Position_staticInitialize', min_props=5),
     Group('makeMove', 'h_makeMove', enforce='Position_makeMove', replace=_MUT + _NN, min_props=30, timeout=3000),
-    Group('make_unmake', 'h_make_unmake', replace=_MUT + _NN + ('BitBoard_firstSquare',), min_props=30, timeout=3000),
+    Group('make_unmake', 'h_make_unmake', replace=_MUT + _NN + ('BitBoard_firstSquare',), min_props=30, timeout=3000, tier='thorough'),
     Group('fold_lemma', 'h_fold_lemma', cases=('KK', list(range(64))), min_props=4, timeout=900, unwind=65),
     Group('serialize', 'h_serialize', enforce='Position_serialize', min_props=5),
     Group('historyHash', 'h_historyHash', enforce='Position_historyHash', replace=('BitBoard_bitCount',), min_props=3),
